@@ -239,6 +239,22 @@ func TestVerifC06(t *testing.T) {
 			w.Signatures[d] = &c
 			emit(kind, w, addrs, 0)
 		}
+		// exhaustive sweep of the recovery byte of one signature (all 255 other values) on the first small lists: only the
+		// original value may verify (27/28-style "Ethereum" encodings, 2/3, and everything >= 4 must all be rejected)
+		if n >= 1 && n <= 6 && round < 24 && k > 0 {
+			d = r.below(k)
+			orig := mk().Signatures[d].Signature[64]
+			for b := 0; b < 256; b++ {
+				if byte(b) == orig {
+					continue
+				}
+				w = mk()
+				c = *w.Signatures[d]
+				c.Signature[64] = byte(b)
+				w.Signatures[d] = &c
+				emit("recid-sweep", w, addrs, 0)
+			}
+		}
 		// repeated address: the same guardian at both of its indices
 		if repeated {
 			w = mk()
